@@ -220,7 +220,7 @@ func plan(prop, tier string) []run {
 		// before the proposal): the members that accepted the committed view's proposal must all commit
 		k0 := -3000
 		if !q {
-			k0 = all
+			k0 = -20000 // fixed-stride subset (every state would take hours: 1.1e5 states x phases x strategies)
 		}
 		r = append(r, run{cfg: "K0@v0a", menu: "M0", prims: menus["M0"], d: -1, budget: 60 * time.Second, maxV: 0, liveN: k0})
 		if q {
